@@ -70,8 +70,8 @@ LEVEL_NOTE = ("The unconditional statement is false of the pinned code (findings
 
 def plan(tier, seed):
     if tier == "quick":
-        return [("C14", seed, 600, [])]
-    return [("C14", seed + k, 6000, []) for k in range(10)]
+        return [("C14", seed, 600, []), ("C14flag", seed, 4000, [])]
+    return [("C14", seed + k, 6000, []) for k in range(10)] + [("C14flag", seed, 200000, [])]
 
 
 def search_plan(seed):
@@ -85,24 +85,46 @@ def _class(obs):
 
 def compare(c):
     """inside the modelled space the predicted class must be the observed one; elsewhere only the spec verdict counts"""
+    if c.op == "C14.flag":
+        # a flag value: accepted/rejected and the value must agree; "?" = outside the modelled regexp sublanguage,
+        # "ok m=?" = the expression compiles but Model/Str.v cannot express what it matches
+        if c.model == "?":
+            return True
+        if c.model == "ok m=?":
+            return (c.observed or "").startswith("ok m=")
+        return c.model == c.observed
     if c.model == "-":
         return True
     return _class(c.observed) in c.model.split("|")
 
 
 def nontrivial(c):
+    if c.op == "C14.flag":
+        return c.model != "?"
     cl = _class(c.observed)
     if cl == "OK":
         return True
     parts = c.input.split(" # ")
-    hostile_flags = len(parts) > 2 and parts[1].startswith("raw") and "empty.knut".encode().hex() in parts[2]
+    hostile_flags = len(parts) > 1 and parts[1].startswith("flg")
     return not (hostile_flags and cl == "ERR")
 
 
 def distribution(cases):
     d = {"by_cmd": {}, "by_class": {}, "predicted": 0, "predicted_err": 0, "predicted_by_cmd": {},
-         "trees": {"single": 0, "multi": 0, "cyclic_or_bad": 0}, "raw_flag_cases": 0, "signatures": {}}
+         "trees": {"single": 0, "multi": 0, "cyclic_or_bad": 0}, "raw_flag_cases": 0, "signatures": {},
+         "flag_family": {"cases": 0, "predicted": {}, "no_opinion": 0},
+         "flag_values": {}}
     for c in cases:
+        if c.op == "C14.flag":
+            kind = c.input.split(" ")[0]
+            fv = d["flag_values"].setdefault(kind, {"accepted": 0, "rejected": 0, "no_opinion": 0})
+            if c.model == "?":
+                fv["no_opinion"] += 1
+            elif (c.observed or "").startswith("ok"):
+                fv["accepted"] += 1
+            else:
+                fv["rejected"] += 1
+            continue
         parts = (c.input.split(" # ") + ["", ""])[:3]
         d["by_cmd"][parts[0]] = d["by_cmd"].get(parts[0], 0) + 1
         cl = _class(c.observed)
@@ -117,6 +139,13 @@ def distribution(cases):
         if re.search(r"(^| )[UDF]:", parts[2]) and n > 1:
             d["trees"]["cyclic_or_bad"] += 1
         d["raw_flag_cases"] += parts[1].startswith("raw")
+        if parts[1].startswith("flg"):
+            ff = d["flag_family"]
+            ff["cases"] += 1
+            if c.model == "-":
+                ff["no_opinion"] += 1
+            else:
+                ff["predicted"][c.model] = ff["predicted"].get(c.model, 0) + 1
         m = re.search(r"sig=(\S+)", c.observed or "")
         if m:
             d["signatures"][m.group(1)] = d["signatures"].get(m.group(1), 0) + 1
